@@ -256,3 +256,237 @@ func Harness_C09_Anonymous() {
 	}
 	vCover("anonymous-checked")
 }
+
+// ---- the whole decision matrix of the handshake ----
+
+func vAuthRouterT(ks *vKeyStore, methods int, localAuth bool) *router {
+	const tmo = 200_000_000 // 200 ms
+	var as []auth.Authenticator
+	if methods&1 != 0 {
+		as = append(as, auth.NewTicketAuthenticator(ks, tmo))
+	}
+	if methods&2 != 0 {
+		as = append(as, auth.NewCRAuthenticator(ks, tmo))
+	}
+	if methods&4 != 0 {
+		as = append(as, auth.NewCryptoSignAuthenticator(ks, tmo))
+	}
+	return vNewRouter(&Config{RealmConfigs: []*RealmConfig{{URI: "realm1", Authenticators: as, RequireLocalAuth: localAuth, AnonymousAuth: methods&8 != 0}}})
+}
+
+// vDoHandshakeOn: as vDoHandshake, over a local or a remote-style peer; an
+// answer function returning nil stays silent (the router must time out).
+func vDoHandshakeOn(r *router, local bool, first wamp.Message, answer func(*wamp.Challenge) wamp.Message) (hs vHandshake, closedAfter bool) {
+	var toRouter chan<- wamp.Message
+	var fromRouter <-chan wamp.Message
+	var rp wamp.Peer
+	if local {
+		c, p := transport.LinkedPeersQSize(8)
+		toRouter, fromRouter, rp = c.Send(), c.Recv(), p
+		hs.client = c
+	} else {
+		p := &vRemotePeer{rd: make(chan wamp.Message), wr: make(chan wamp.Message, 8)}
+		toRouter, fromRouter, rp = p.rd, p.wr, p
+	}
+	done := make(chan struct{})
+	go func() {
+		defer close(done)
+		toRouter <- first
+		for {
+			m, ok := <-fromRouter
+			if !ok {
+				closedAfter = true
+				return
+			}
+			switch mm := m.(type) {
+			case *wamp.Challenge:
+				vAssert("at-most-one-challenge", hs.challenge == nil)
+				hs.challenge = mm
+				if a := answer(mm); a != nil {
+					toRouter <- a
+				}
+			case *wamp.Welcome:
+				hs.welcome = mm
+				return
+			case *wamp.Abort:
+				vAssert("abort-is-the-only-verdict", hs.abort == nil && hs.welcome == nil)
+				hs.abort = mm
+			default:
+				vAssert("only-challenge-welcome-abort-during-handshake", false)
+			}
+		}
+	}()
+	hs.err = r.AttachClient(rp, nil)
+	<-done
+	return hs, closedAfter
+}
+
+var vMethodNames = []string{"ticket", "wampcra", "cryptosign", "anonymous"}
+
+func Harness_C09_Matrix() {
+	vConcreteRandomIDs(true)
+	pub, priv, err := sign.GenerateKey(rand.Reader)
+	vAssert("keypair", err == nil)
+	craKey := []byte("cra-key")
+	ks := &vKeyStore{user: "alice", keys: map[string][]byte{"ticket": []byte("s3cr3t"), "wampcra": craKey, "cryptosign": pub[:]}, role: "user"}
+	configured := vChoice("configured-methods", 16) // bit0 ticket, bit1 wampcra, bit2 cryptosign, bit3 anonymous
+	localAuth := vBool("RequireLocalAuth")
+	local := vBool("local-peer")
+	r := vAuthRouterT(ks, configured, localAuth)
+	rl := r.realms["realm1"]
+
+	// HELLO
+	authidChoice := vChoice("authid", 3)
+	authid := []string{"alice", "mallory", ""}[authidChoice]
+	var offered wamp.List
+	var valid []string
+	switch k := vChoice("offer.first", 7); k {
+	case 0, 1, 2, 3:
+		offered = append(offered, vMethodNames[k])
+		valid = append(valid, vMethodNames[k])
+	case 4:
+		offered = append(offered, "")
+	case 5:
+		offered = append(offered, 7)
+	case 6: // no authmethods at all
+	}
+	if len(offered) > 0 {
+		if k := vChoice("offer.second", 5); k < 4 {
+			offered = append(offered, vMethodNames[k])
+			valid = append(valid, vMethodNames[k])
+		}
+	}
+	hd := wamp.Dict{"roles": vAllRoles,
+		"session": wamp.ID(666), "authrole": "admin", "authmethod": "forged", "authprovider": "forged"}
+	if authidChoice != 2 {
+		hd["authid"] = authid
+	}
+	if len(offered) > 0 || vBool("empty-authmethods-list") {
+		hd["authmethods"] = offered
+	}
+	hello := &wamp.Hello{Realm: "realm1", Details: hd}
+
+	// the client's answer to a challenge
+	answerKind := vChoice("answer", 5) // 0 correct, 1 wrong secret, 2 right secret over another message (cryptosign) / wrong, 3 not an AUTHENTICATE, 4 silence
+	answer := func(c *wamp.Challenge) wamp.Message {
+		switch answerKind {
+		case 3:
+			return &wamp.Hello{Realm: "realm1", Details: hd}
+		case 4:
+			return nil
+		}
+		switch c.AuthMethod {
+		case "ticket":
+			if answerKind == 0 {
+				return &wamp.Authenticate{Signature: "s3cr3t"}
+			}
+			t := vString("ticket", 6)
+			vAssume(t != "s3cr3t")
+			return &wamp.Authenticate{Signature: t}
+		case "wampcra":
+			ch, _ := wamp.AsString(c.Extra["challenge"])
+			if answerKind == 0 {
+				return &wamp.Authenticate{Signature: crsign.SignChallenge(ch, craKey)}
+			}
+			return &wamp.Authenticate{Signature: crsign.SignChallenge(ch, []byte("other-key"))}
+		case "cryptosign":
+			chHex, _ := wamp.AsString(c.Extra["challenge"])
+			ch, _ := hex.DecodeString(chHex)
+			switch answerKind {
+			case 0:
+				return &wamp.Authenticate{Signature: hex.EncodeToString(sign.Sign(nil, ch, priv))}
+			case 1:
+				_, priv2, _ := sign.GenerateKey(rand.Reader)
+				return &wamp.Authenticate{Signature: hex.EncodeToString(sign.Sign(nil, ch, priv2))}
+			}
+			other := append([]byte{}, ch...)
+			other[0] ^= 1
+			return &wamp.Authenticate{Signature: hex.EncodeToString(sign.Sign(nil, other, priv))}
+		}
+		return &wamp.Authenticate{Signature: "x"}
+	}
+
+	hs, closedAfter := vDoHandshakeOn(r, local, hello, answer)
+
+	// reference decision
+	accept, wantChallenge := false, false
+	wantMethod, wantRole, wantProvider := "", "", ""
+	wantAuthid, checkAuthid := authid, true
+	if local && !localAuth {
+		accept, wantMethod, wantRole, wantProvider = true, "local", "trusted", "static"
+		checkAuthid = authid != ""
+	} else {
+		if _, has := hd["authmethods"]; !has || len(offered) == 0 {
+			valid = []string{"anonymous"}
+		}
+		sel := ""
+		for _, m := range valid {
+			on := false
+			switch m {
+			case "ticket":
+				on = configured&1 != 0
+			case "wampcra":
+				on = configured&2 != 0
+			case "cryptosign":
+				on = configured&4 != 0
+			case "anonymous":
+				on = configured&8 != 0
+			}
+			if on {
+				sel = m
+				break
+			}
+		}
+		switch sel {
+		case "":
+		case "anonymous":
+			accept, wantMethod, wantRole, wantProvider, checkAuthid = true, "anonymous", "anonymous", "static", false
+		default:
+			wantMethod, wantRole, wantProvider = sel, "user", "vstore"
+			wantChallenge = authid != "" && !(sel == "cryptosign" && authid != "alice")
+			accept = wantChallenge && authid == "alice" && answerKind == 0
+		}
+	}
+
+	vAssert("challenge-issued-iff-a-secret-method-is-selected", (hs.challenge != nil) == wantChallenge)
+	if hs.challenge != nil {
+		vAssert("challenge-names-the-selected-method", hs.challenge.AuthMethod == wantMethod)
+	}
+	vAssert("welcome-iff-authenticated", (hs.welcome != nil) == accept)
+	vAssert("error-iff-rejected", (hs.err != nil) == !accept)
+	if accept {
+		if hs.welcome != nil {
+			sess := rl.clients[hs.welcome.ID]
+			vAssert("session-attached-under-router-id", len(rl.clients) == 1 && sess != nil && sess.ID == hs.welcome.ID && hs.welcome.ID != 666)
+			if sess != nil {
+				d := sess.Details
+				vAssert("identity-from-router-not-hello", d["session"] == any(hs.welcome.ID) && d["authrole"] == any(wantRole) && d["authmethod"] == any(wantMethod) && d["authprovider"] == any(wantProvider))
+				w := hs.welcome.Details
+				vAssert("welcome-states-the-same-identity", w["authrole"] == any(wantRole) && w["authmethod"] == any(wantMethod) && w["authprovider"] == any(wantProvider))
+				if checkAuthid {
+					vAssert("authid-is-the-authenticated-one", d["authid"] == any(wantAuthid) && w["authid"] == any(wantAuthid))
+				} else {
+					_, isStr := d["authid"].(string)
+					_, isStrW := w["authid"].(string)
+					vAssert("authid-assigned", isStr && isStrW)
+				}
+			}
+			vCover("accepted")
+			if wantChallenge {
+				vCover("accepted-after-challenge")
+			}
+		}
+	} else {
+		vAssert("abort-sent", hs.abort != nil)
+		vAssert("transport-closed-after-abort", closedAfter)
+		vAssert("not-attached", len(rl.clients) == 0)
+		vCover("rejected")
+		if wantChallenge && answerKind == 4 {
+			vCover("challenge-timeout")
+		}
+	}
+	// broker and dealer have seen nothing from a rejected client
+	if !accept {
+		vAssert("no-state-from-rejected-client", len(rl.broker.sessionSubIDSet) == 0 && len(rl.dealer.calleeRegIDSet) == 1)
+	}
+}
